@@ -8,36 +8,6 @@ From C22 Require Import C22InvSpec C22InvTac C22inv_gen.
 Import ListNotations.
 Local Open Scope R_scope.
 
-Lemma iso1_dss_0 s0 s1 s2 : is_derive (fun x => (iso_ss_1 x s1 s2)) s0 (2 * (s0 - (s0 + s1 + s2) / 3)).
-Proof. unfold iso_ss_1. cutder. Qed.
-Lemma iso1_dj3_0 s0 s1 s2 : is_derive (fun x => (iso_j3_1 x s1 s2)) s0 (iso_b0_1 s0 s1 s2).
-Proof. unfold iso_b0_1, iso_j3_1. cutder. Qed.
-Lemma iso1_db0_0 s0 s1 s2 : is_derive (fun x => (iso_b0_1 x s1 s2)) s0 (iso_h00_1 s0 s1 s2).
-Proof. unfold iso_b0_1, iso_h00_1. cutder. Qed.
-Lemma iso1_db1_0 s0 s1 s2 : is_derive (fun x => (iso_b1_1 x s1 s2)) s0 (iso_h10_1 s0 s1 s2).
-Proof. unfold iso_b1_1, iso_h10_1. cutder. Qed.
-Lemma iso1_db2_0 s0 s1 s2 : is_derive (fun x => (iso_b2_1 x s1 s2)) s0 (iso_h20_1 s0 s1 s2).
-Proof. unfold iso_b2_1, iso_h20_1. cutder. Qed.
-Lemma iso1_dss_1 s0 s1 s2 : is_derive (fun x => (iso_ss_1 s0 x s2)) s1 (2 * (s1 - (s0 + s1 + s2) / 3)).
-Proof. unfold iso_ss_1. cutder. Qed.
-Lemma iso1_dj3_1 s0 s1 s2 : is_derive (fun x => (iso_j3_1 s0 x s2)) s1 (iso_b1_1 s0 s1 s2).
-Proof. unfold iso_b1_1, iso_j3_1. cutder. Qed.
-Lemma iso1_db0_1 s0 s1 s2 : is_derive (fun x => (iso_b0_1 s0 x s2)) s1 (iso_h01_1 s0 s1 s2).
-Proof. unfold iso_b0_1, iso_h01_1. cutder. Qed.
-Lemma iso1_db1_1 s0 s1 s2 : is_derive (fun x => (iso_b1_1 s0 x s2)) s1 (iso_h11_1 s0 s1 s2).
-Proof. unfold iso_b1_1, iso_h11_1. cutder. Qed.
-Lemma iso1_db2_1 s0 s1 s2 : is_derive (fun x => (iso_b2_1 s0 x s2)) s1 (iso_h21_1 s0 s1 s2).
-Proof. unfold iso_b2_1, iso_h21_1. cutder. Qed.
-Lemma iso1_dss_2 s0 s1 s2 : is_derive (fun x => (iso_ss_1 s0 s1 x)) s2 (2 * (s2 - (s0 + s1 + s2) / 3)).
-Proof. unfold iso_ss_1. cutder. Qed.
-Lemma iso1_dj3_2 s0 s1 s2 : is_derive (fun x => (iso_j3_1 s0 s1 x)) s2 (iso_b2_1 s0 s1 s2).
-Proof. unfold iso_b2_1, iso_j3_1. cutder. Qed.
-Lemma iso1_db0_2 s0 s1 s2 : is_derive (fun x => (iso_b0_1 s0 s1 x)) s2 (iso_h02_1 s0 s1 s2).
-Proof. unfold iso_b0_1, iso_h02_1. cutder. Qed.
-Lemma iso1_db1_2 s0 s1 s2 : is_derive (fun x => (iso_b1_1 s0 s1 x)) s2 (iso_h12_1 s0 s1 s2).
-Proof. unfold iso_b1_1, iso_h12_1. cutder. Qed.
-Lemma iso1_db2_2 s0 s1 s2 : is_derive (fun x => (iso_b2_1 s0 s1 x)) s2 (iso_h22_1 s0 s1 s2).
-Proof. unfold iso_b2_1, iso_h22_1. cutder. Qed.
 Lemma ort1_dk2_0 s0 s1 s2 a0 a1 a2 a3 a4 a5 b0 b1 b2 b3 b4 b5 b6 b7 b8 b9 b10 : is_derive (fun x => (ort_k2_1 x s1 s2 a0 a1 a2 a3 a4 a5 b0 b1 b2 b3 b4 b5 b6 b7 b8 b9 b10)) s0 (ort_p0_1 s0 s1 s2 a0 a1 a2 a3 a4 a5 b0 b1 b2 b3 b4 b5 b6 b7 b8 b9 b10).
 Proof. unfold ort_k2_1, ort_p0_1. cutder. Qed.
 Lemma ort1_dk3_0 s0 s1 s2 a0 a1 a2 a3 a4 a5 b0 b1 b2 b3 b4 b5 b6 b7 b8 b9 b10 : is_derive (fun x => (ort_k3_1 x s1 s2 a0 a1 a2 a3 a4 a5 b0 b1 b2 b3 b4 b5 b6 b7 b8 b9 b10)) s0 (ort_r0_1 s0 s1 s2 a0 a1 a2 a3 a4 a5 b0 b1 b2 b3 b4 b5 b6 b7 b8 b9 b10).
